@@ -109,7 +109,8 @@ def execute_cases(ctx, items, metas):
         mm = r.choice(["min", "max"])
         from pyvolutionary.hypertuner import ParameterGrid
         pts = list(ParameterGrid(grid))
-        levels = r.choice([[1.0, 2.0, 3.0], [1.0, 1.0, 2.0], [5.0, 5.0, 5.0], [-2.0, 0.5, 4.0, 4.0]])
+        levels = r.choice([[1.0, 2.0, 3.0], [1.0, 1.0, 2.0], [5.0, 5.0, 5.0], [-2.0, 0.5, 4.0, 4.0],
+                           [3e-9, 2e-9, 1e-9], [0.500000004, 0.500000001, 0.500000007], [-1e-12, 0.0, 1e-12]])      # means that differ, but only far behind the decimal point
         table = {}
         for p in pts:
             base = r.choice(levels)
@@ -140,9 +141,10 @@ def execute_cases(ctx, items, metas):
             opt = (min if mm == "min" else max)(true_mean.values())
             if tuner.best_parameters not in pts:
                 ctx.violation("execute:best_parameters not a grid point", f"{tuner.best_parameters!r}", meta)
-            elif true_mean[best_key] != opt:
+            elif not math.isclose(true_mean[best_key], opt, rel_tol=0.0, abs_tol=1e-13):
                 ctx.violation("execute:best_parameters not optimal", f"best_parameters {tuner.best_parameters!r} has mean {true_mean[best_key]!r}; the optimal mean ({mm}) is {opt!r} (n_trials={n_trials})", meta)
-            if tuner.best_score != true_mean.get(best_key):
+            # (pandas and Python sum the trials in different orders: with cancelling spreads the two means differ in the last bits)
+            if true_mean.get(best_key) is None or not math.isclose(tuner.best_score, true_mean[best_key], rel_tol=1e-12, abs_tol=1e-13):
                 ctx.violation("execute:best_score", f"best_score {tuner.best_score!r} but the mean of best_parameters is {true_mean.get(best_key)!r}", meta)
             shutil.rmtree(logdir); os.makedirs(logdir)
             with quiet(): tuner.resolve()
